@@ -42,6 +42,7 @@ type sproc struct {
 	at       string
 	finished bool
 	res      string
+	tmpLeft  string
 }
 
 func (s *sched) handler(name string, detail []string) error {
@@ -232,6 +233,26 @@ func cacheExec(c *Ctx, op string) {
 			id, err, pan := safeCall(func() (api.WareID, error) {
 				return tartrans.Unpack(ctx, wares[p.ware].id, dsts[i], uf, rio.PlacementMode(p.mode), wh, rio.Monitor{})
 			})
+			// the moment the call returns: a failed (or mismatching, or cancelled) unpack leaves no temp directory
+			if err != nil || pan != "" {
+				if ents, e := os.ReadDir(cache); e == nil {
+					running := 0
+					for _, q := range sps {
+						if q != nil && !q.finished && q != sp {
+							running++
+						}
+					}
+					left := 0
+					for _, d := range ents {
+						if strings.HasPrefix(d.Name(), ".tmp.unpack.") {
+							left++
+						}
+					}
+					if left > running {
+						sp.tmpLeft = fmt.Sprintf("%d temp dir(s) in the cache at the moment a failed unpack returned, %d other unpacker(s) still running", left, running)
+					}
+				}
+			}
 			switch {
 			case pan != "":
 				sp.res = "panic:" + pan
@@ -318,6 +339,11 @@ func cacheExec(c *Ctx, op string) {
 	for _, s := range shelves {
 		if !strings.HasSuffix(s, "=ok") {
 			c.PropFail("shelf-not-verified", "a shelf does not hold exactly the fileset it is named after: "+s, op)
+		}
+	}
+	for _, sp := range sps {
+		if sp.tmpLeft != "" {
+			c.PropFail("cache-temp-left", sp.tmpLeft, op)
 		}
 	}
 	if tmps > crashed {
